@@ -18,10 +18,14 @@ A *case* is a history over two registry instances and up to three threads:
 """
 import json
 import os
+import sys
 from concurrent.futures import ThreadPoolExecutor
 
 import vlib
-from vlib import run_bin, coq_eval
+from vlib import run_bin, coq_eval, gen_if_changed
+
+sys.path.insert(0, os.path.join(vlib.VERIF, "translators"))
+import registry_shapes as shapes_tr  # noqa: E402
 
 GEN_SHIFT = 51          # sharded_slab DefaultConfig on 64-bit: generation = key >> 51, (tid, address) below
 GUARD_H = 1000          # handle ids of the spans owned by EnteredSpan guards in the model
@@ -437,43 +441,77 @@ def norm_impl_obs(o):
 
 
 def run_impl(ctx, binpath, cases):
-    """returns {case id: {"ops": [[raw obs dicts]...], "stopped": bool}}"""
+    """returns ({case id: {"ops": [[raw obs dicts]...], "stopped": bool, "complete": True, ["aborted": True]}}, errors).
+    Cases run 80 per process; a chunk whose process dies (abort = panic while panicking, stack overflow, timeout) or prints
+    garbage is re-run one case per process so that the dying case is isolated: it is kept with what it printed,
+    `stopped` and `aborted` set (the oracle reports it as a failing input)."""
     plain = [c for c in cases if not c["global"]]
     glob = [c for c in cases if c["global"]]
     res = {}
 
-    def parse(out):
+    def parse(out, into):
         cur = None
         for line in out.splitlines():
             if not line.startswith("{"):
                 continue
-            o = json.loads(line)
+            try:
+                o = json.loads(line)
+            except ValueError:
+                break                   # truncated line: the process died here
             if "case" in o:
                 cur = {"ops": [], "stopped": False}
-                res[o["case"]] = cur
+                into[o["case"]] = cur
             elif "endcase" in o:
-                cur["stopped"] = o["stopped"]
-                cur["complete"] = True
-            elif cur is not None:
+                if cur is not None:
+                    cur["stopped"] = o["stopped"]
+                    cur["complete"] = True
+            elif cur is not None and "obs" in o:
                 cur["ops"].append(o["obs"])
 
     jobs = []
     chunk = 80
     for i in range(0, len(plain), chunk):
-        jobs.append("".join(case_text(c) for c in plain[i:i + chunk]))
+        jobs.append(plain[i:i + chunk])
     for c in glob:
-        jobs.append(case_text(c))      # set_global_default is once per process
+        jobs.append([c])      # set_global_default is once per process
 
-    def one(text):
-        return run_bin(binpath, input=text, timeout=600)
+    def one(cs):
+        return run_bin(binpath, input="".join(case_text(c) for c in cs), timeout=600)
 
     with ThreadPoolExecutor(max_workers=max(2, vlib.NCPU // 2)) as ex:
         outs = list(ex.map(one, jobs))
     errs = []
-    for (rc, out), text in zip(outs, jobs):
-        parse(out)
-        if rc != 0:
-            errs.append("rc=%d %s" % (rc, vlib.last_error(out)))
+    redo = []
+    for (rc, out), cs in zip(outs, jobs):
+        part = {}
+        parse(out, part)
+        bad = rc != 0 or any(c["id"] not in part or "complete" not in part[c["id"]] for c in cs)
+        if bad and len(cs) > 1:
+            redo += cs
+        else:
+            res.update(part)
+            if bad:
+                redo += cs
+    if redo:
+        singles = [[c] for c in redo]
+        with ThreadPoolExecutor(max_workers=max(2, vlib.NCPU // 2)) as ex:
+            outs2 = list(ex.map(one, singles))
+        for (rc, out), cs in zip(outs2, singles):
+            c = cs[0]
+            part = {}
+            parse(out, part)
+            r = part.get(c["id"])
+            if r is not None and "complete" in r and rc == 0:
+                res[c["id"]] = r
+                continue
+            if r is None:
+                errs.append("case %s: rc=%d %s" % (c["id"], rc, vlib.last_error(out)))
+                continue
+            r["stopped"] = True
+            r["aborted"] = True
+            r["complete"] = True
+            r["abort_note"] = "rc=%d %s" % (rc, vlib.last_error(out)[-200:])
+            res[c["id"]] = r
     return res, errs
 
 
@@ -673,6 +711,13 @@ class Oracle:
         if self.misroutes and spans and all(q in self.tainted for q in spans):
             finding = "F2"
         self.fail.append((group, what, finding, k))
+
+    def bad_or_f2(self, f2, group, what, k, spans=()):
+        """a deviation on a span whose life cycle a mis-routed release disturbed is finding F2 re-observed"""
+        if f2 and self.misroutes:
+            self.fail.append((group, what + " (after a release was routed to a collector that is not the span's own)", "F2", k))
+        else:
+            self.bad(group, what, k, spans)
 
     def ancestors(self, q):
         out = []
@@ -928,8 +973,9 @@ class Oracle:
         q = got[0][1] if got else None
         if i is not None:
             known, want = self.current(i, t)
-            if known and q != want and not (want is not None and want in self.tainted):
-                self.bad("C06", "Span::current() on thread %d is %s, most recently entered and not exited is %s" % (t, q, want), k)
+            if known and q != want:
+                self.bad_or_f2(want is not None and want in self.tainted, "C06",
+                               "Span::current() on thread %d is %s, most recently entered and not exited is %s" % (t, q, want), k)
         elif q is not None:
             self.bad("C06", "Span::current() is %s with no collector" % q, k)
         self.handles[h] = q
@@ -953,9 +999,9 @@ class Oracle:
             return
         _, ei, cur, espan, escope, efr, dump = evs[0]
         known, want = self.current(i, t)
-        if known and not (want is not None and want in self.tainted):
-            if cur != want:
-                self.bad("C06", "lookup_current on thread %d is %s, most recently entered and not exited is %s" % (t, cur, want), k)
+        if known and cur != want:
+            self.bad_or_f2(want is not None and want in self.tainted, "C06",
+                           "lookup_current on thread %d is %s, most recently entered and not exited is %s" % (t, cur, want), k)
         if kind == "r":
             wspan, wk = None, True
         elif kind == "c":
@@ -965,39 +1011,38 @@ class Oracle:
             wk = True
             if wspan is not None and self.spans[wspan].inst != i:
                 wk = False      # parent from another collector: not covered
-        if wk and not (wspan is not None and not self.chain_ok(wspan)):
+        if wk:
+            f2 = wspan is not None and not self.chain_ok(wspan)
             if espan != wspan:
-                self.bad("C06", "event_span is %s, expected %s (%s)" % (espan, wspan, kind), k)
+                self.bad_or_f2(f2, "C06", "event_span is %s, expected %s (%s)" % (espan, wspan, kind), k)
             else:
                 wsc = tuple(self.ancestors(wspan)) if wspan is not None else ()
                 if escope != wsc:
-                    self.bad("C06", "event_scope is %s, ancestors leaf to root are %s" % (list(escope), list(wsc)), k)
+                    self.bad_or_f2(f2, "C06", "event_scope is %s, ancestors leaf to root are %s" % (list(escope), list(wsc)), k)
                 if efr != tuple(reversed(wsc)):
-                    self.bad("C06", "event_scope().from_root() is %s, ancestors root to leaf are %s" % (list(efr), list(reversed(wsc))), k)
+                    self.bad_or_f2(f2, "C06", "event_scope().from_root() is %s, ancestors root to leaf are %s" % (list(efr), list(reversed(wsc))), k)
         # the dump: every span of this instance created so far
         rawdump = [o for o in self.impl["ops"][k] if o["k"] == "event"][0]["dump"]
         for q, sc, fr, chain in rawdump:
             s = self.spans.get(q)
-            if s is None or not self.chain_ok(q) or q in self.tainted:
+            if s is None:
                 continue
+            f2 = (not self.chain_ok(q)) or q in self.tainted
             if s.closed:
                 if sc is not None:
-                    self.bad("C05", "span %d is still found by its id after it was reported closed / should be gone" % q, k, (q,))
+                    self.bad_or_f2(f2, "C05", "span %d is still found by its id after it was reported closed / should be gone" % q, k, (q,))
                 continue
             if sc is None:
                 # alive by the specification (a handle, an entry, a child or a captured trace keeps it)
-                self.bad("C05" if self.all_gone_deep(q) else "C06", "span %d is not readable although %s" % (q, self.why_alive(q)), k, (q,))
+                self.bad_or_f2(f2, "C06", "span %d is not readable although %s" % (q, self.why_alive(q)), k, (q,))
                 continue
             want_sc = self.ancestors(q)
             if list(sc) != want_sc:
-                self.bad("C06", "scope of span %d is %s, ancestors leaf to root are %s" % (q, sc, want_sc), k, (q,))
+                self.bad_or_f2(f2, "C06", "scope of span %d is %s, ancestors leaf to root are %s" % (q, sc, want_sc), k, (q,))
             if list(fr) != list(reversed(want_sc)):
-                self.bad("C06", "scope().from_root() of span %d is %s, expected %s" % (q, fr, list(reversed(want_sc))), k, (q,))
+                self.bad_or_f2(f2, "C06", "scope().from_root() of span %d is %s, expected %s" % (q, fr, list(reversed(want_sc))), k, (q,))
             if list(chain) != want_sc:
-                self.bad("C06", "SpanRef::parent chain of span %d is %s, expected %s" % (q, chain, want_sc), k, (q,))
-
-    def all_gone_deep(self, q):
-        return False
+                self.bad_or_f2(f2, "C06", "SpanRef::parent chain of span %d is %s, expected %s" % (q, chain, want_sc), k, (q,))
 
     def why_alive(self, q):
         s = self.spans[q]
@@ -1017,13 +1062,12 @@ class Oracle:
             if r != ():
                 self.bad("C06", "a disabled span has a span trace %s" % (r,), k)
             return
-        if not self.chain_ok(q):
-            return
+        f2 = not self.chain_ok(q)
         want = tuple(self.ancestors(q))
         if r is None:
-            self.bad("C06", "span %d held by a live handle / captured trace is not readable" % q, k, (q,))
+            self.bad_or_f2(f2, "C06", "span %d held by a live handle / captured trace is not readable" % q, k, (q,))
         elif r != want:
-            self.bad("C06", "span trace / scope through the handle of span %d is %s, ancestors are %s" % (q, list(r), list(want)), k, (q,))
+            self.bad_or_f2(f2, "C06", "span trace / scope through the handle of span %d is %s, ancestors are %s" % (q, list(r), list(want)), k, (q,))
 
     def check_closes(self, k, obs, expect):
         closes = [o for o in obs if o[0] == "close"]
@@ -1106,6 +1150,13 @@ def load_corpus(prop):
 
 def oracle_failures(case, impl, prop):
     o = Oracle(case, impl).run()
+    if impl.get("aborted"):
+        k = len(impl["ops"])
+        what = "the process executing this history died (abort = panic while panicking, overflow or timeout) during op %d" % k
+        if o.foreign_victim:
+            o.fail.append(("C05", what + " after a release was routed to a foreign collector", "F2", k))
+        else:
+            o.fail.append(("C05", what, None, k))
     return o, [f for f in o.fail if f[0] == prop]
 
 
@@ -1140,6 +1191,10 @@ def shrink(ctx, binpath, case, prop, what):
 
 
 def run_common(ctx, prop, rep, proof_targets):
+    # ---- translator (every run): constants and shapes of the mirrored functions -> coq/gen/Gen_registry.v
+    text, unrec = shapes_tr.main(ctx.repo, None)
+    gen_if_changed(os.path.join(vlib.COQ, "gen", "Gen_registry.v"), text)
+    rep.tie("translator:Gen_registry", not unrec, "; ".join(unrec[:4]), unrec[:1] or None)
     rep.proof = vlib.coq_prove(ctx, prop, proof_targets)
     ok, paths, log = vlib.cargo_build(ctx, "registry", ["h_registry"])
     if not ok:
@@ -1199,6 +1254,10 @@ def run_common(ctx, prop, rep, proof_targets):
         rep.count("depth:%d" % st["max_depth"])
         if o.misroutes:
             rep.count("cases-with-misrouted-release(F2 class)")
+        if model is not None:
+            mflat = [x for oo in model[c["id"]]["ops"] for x in oo]
+            if all(own == to for (_, own, to) in model[c["id"]]["routes"]) and not any(x[0] in ("ill", "foreignparent", "badalloc") for x in mflat):
+                rep.count("model: WellFormed and OwnDefault hold (the theorems apply to this history)")
         if o.off:
             rep.count("cases-ill-formed(foreign parent): correspondence only")
         if r["stopped"]:
